@@ -270,7 +270,7 @@ fn structured_count(ty: &Ty) -> usize {
             .get_or_init(|| ALL_TYIDS.iter().map(|t| (*t, (0..64).take_while(|k| structured(*t, *k).is_some()).count())).collect())
             .get(t)
             .unwrap_or(&0),
-        Ty::S(Elem::F32) | Ty::S(Elem::F64) => 6,
+        Ty::S(Elem::F32) | Ty::S(Elem::F64) => 9,
         _ => 0,
     }
 }
@@ -287,7 +287,7 @@ fn structured_args(op: &OpDesc, combo: usize, rng: &mut Rng) -> Vec<Val> {
     let total = structured_total(op);
     // enumerate the product when it is small, otherwise a deterministic pseudo-random walk through it
     let mut idx = if total <= 4096 { combo } else { (combo as u64).wrapping_mul(0x9E37_79B9_7F4A_7C15) as usize % total };
-    let scal = [0.0, 0.5, 1.0, -1.0, core::f64::consts::PI, 2.0];
+    let scal = [0.0, 0.5, 1.0, -1.0, core::f64::consts::PI, 2.0, core::f64::consts::FRAC_PI_2, -core::f64::consts::FRAC_PI_2, 1.0 / 3.0];
     (0..op.args.len())
         .map(|i| {
             let c = structured_count(&op.args[i]);
@@ -655,12 +655,19 @@ pub fn run_once(seed: u64, shard: usize, of: usize, only: Option<&str>) -> Summa
             continue;
         }
         if op.fname == "fmt_sink" || op.fname == "fmt_spec" {
-            continue; // formatting machinery dominates interpreter time and is covered natively
+            continue; // the spec / sink grids are covered natively; the plain `fmt` ops below run the same impls once
         }
         crate::arena::announce(&format!("{{\"kind\":\"op\",\"fn\":{}}}", serde_json::to_string(op.name).unwrap()));
-        for (k, cls) in [Cls::Ordinary, Cls::Mix].into_iter().enumerate() {
+        let nstruct = structured_total(op);
+        for k in 0..if nstruct > 0 { 4 } else { 2 } {
             let mut rng = Rng::new(seed, "c18p-once", (oi as u64) << 4 | k as u64);
-            let args: Vec<Val> = (0..op.args.len()).map(|i| gen_arg(op, i, &mut rng, cls)).collect();
+            let args: Vec<Val> = match k {
+                0 => (0..op.args.len()).map(|i| gen_arg(op, i, &mut rng, Cls::Ordinary)).collect(),
+                1 => (0..op.args.len()).map(|i| gen_arg(op, i, &mut rng, Cls::Mix)).collect(),
+                // degenerate branches: uniformly zero arguments, and one structured combination drawn by the seed
+                2 => (0..op.args.len()).map(|i| gen_arg(op, i, &mut rng, Cls::Lattice(0))).collect(),
+                _ => structured_args(op, rng.below(nstruct.min(4096)), &mut rng),
+            };
             sum.evaluations += 1;
             if let Err(p) = call(op, &args) {
                 let class = format!("panic:{}", op.name);
